@@ -673,7 +673,16 @@ def _inject_task(task, res):
                 res["violations"].append({"signature": f"{cls}:stale-solved-state-after-inconclusive-re-solve",
                                           "summary": f"solved once, then solve() again with status {task['status']} at invocation {j}: solve() returned {ok2}, is_solved() still reports solved", "replay": {"task": task, "j": j, "resolve": True}})
             else:
-                res["discharged"] += 1
+                data_out = None
+                try:
+                    data_out = m.get_solution()
+                except Exception:
+                    pass
+                if data_out is not None:
+                    res["violations"].append({"signature": f"{cls}:getters-return-data-after-inconclusive-re-solve",
+                                              "summary": f"solved once, then solve() again with status {task['status']} at invocation {j}: not solved, but get_solution() still returns the first run's data", "replay": {"task": task, "j": j, "resolve": True}})
+                else:
+                    res["discharged"] += 1
     res["nontrivial"] += 1 if n >= 2 else 0
     return res
 
